@@ -25,7 +25,8 @@ def cmd_check(args):
     tier = args.tier or os.environ.get("VERIF_TIER") or "quick"
     seed = args.seed if args.seed is not None else int(os.environ.get("VERIF_SEED", "1") or 1)
     code = core.run_check(args.id, tier=tier, verif_seed=seed, repo=args.repo,
-                          workers=args.workers, budget_s=args.budget, max_plans=args.max_plans)
+                          workers=args.workers, budget_s=args.budget, max_plans=args.max_plans,
+                          write_evidence=not args.no_evidence)
     return code
 
 
@@ -107,6 +108,7 @@ def main():
     p.add_argument("--workers", type=int)
     p.add_argument("--budget", type=float)
     p.add_argument("--max-plans", type=int)
+    p.add_argument("--no-evidence", action="store_true")
     p.set_defaults(fn=cmd_check)
     p = sub.add_parser("replay")
     p.add_argument("file")
